@@ -21,7 +21,7 @@ CHECKS = {
          "DESIGN.md 2/C02"),
  "C06": ("enumerated mutation family + rapid sampling over corpus x formats x force, crash-isolated workers",
          "Generated-input search over a finite mutation family (truncations, byte overwrites, bit flips, length-field saturation, block dup/removal) around ~700 sample files and harness-written files x home format / probe / any registered format x force; the whole family is enumerated for small files on their home format (<=128 bytes quick, <=512 thorough), the rest is sampled by rapid (1.6M quick); a sample goes through the whole CLI (dv, -V, torepr). Oracle: tree or decode error, never a Go panic or process death (worker journal attributes deaths, search continues behind them). 'No fault in N explored inputs of the stated family', not absence.",
-         "Trusted: Go's recover/runtime fault reporting. Non-termination is reported as suspected_hang, not decided. Force is not combined with the probe group or formats nesting it (combinatorial by construction) nor with bplist/midi (forced decodes observed not to finish). OOM deaths count only when reproduced alone under 48 GiB.",
+         "Trusted: Go's recover/runtime fault reporting. Non-termination is reported as suspected_hang, not decided. Every decode runs under a deterministic format-attempt budget (4000 attempts) so that forced container/probe decodes cannot blow up. OOM deaths count only when reproduced alone under 48 GiB.",
          "DESIGN.md 2/C06"),
  "C13": ("enumeration of function x boundary-value tuples from the run-time registry, crash-isolated batched evaluation",
          "Generated-case search: all 751 name/arity pairs fq adds (53 Go registrations incl. `_` prefixed + public jq definitions = scope minus the reference engine's builtins) x a pool of 66 boundary values as input and arguments: arity 0 every input, arity 1 the full product in the thorough tier and a seed-derived covering sample in quick, arity >= 2 seed-derived tuples; evaluated as `INPUT | try [limit(50; F(ARGS))] catch .` in batches of 120 inside workers whose death is attributed to the open batch, narrowed to one call on restart, excluded and searched behind. Violation = Go panic reaching the harness or process death. 'No fault in N explored calls', not absence.",
